@@ -66,13 +66,24 @@ def apply_simple_adc(
     1. Rounds the normalized values to the nearest integer using truncation.
     1. Converts the resulting array to the specified data type (dtype).
     """
-    output = (
-        (np.clip(signal, a_min=voltage_min, a_max=voltage_max) - voltage_min)
-        * (2**bit_resolution - 1)
-        / (voltage_max - voltage_min)
-    )
+    full_scale: int = 2**bit_resolution - 1
 
-    return np.trunc(output).astype(dtype)
+    # Fraction of the voltage range: exactly 0.0 at (and below) 'voltage_min' and
+    # exactly 1.0 at (and above) 'voltage_max'
+    fraction = (
+        np.clip(signal, a_min=voltage_min, a_max=voltage_max) - voltage_min
+    ) / (voltage_max - voltage_min)
+
+    output = fraction * full_scale
+
+    # Saturate with integers: 'full_scale' is not always a floating-point number
+    # (e.g. 2**64 - 1 is rounded to 2**64, which does not fit into 64 bits)
+    is_saturated = output >= full_scale
+
+    digitized = np.trunc(np.where(is_saturated, 0.0, output)).astype(np.uint64)
+    digitized[is_saturated] = full_scale
+
+    return digitized.astype(dtype)
 
 
 def simple_adc(
